@@ -16,17 +16,13 @@ def fields_read(body):
     out = set()
 
     def scan_place(pl):
-        names = []
-        on = False
+        # a field projection out of one of the section structs (NarseseFormatTask, ...Sentence, ...) IS a read of `section.field`, however the
+        # reference to the section was obtained (directly from self.format or through a named temporary `let t = &self.format.task;`)
         for e in pl["proj"]:
             if e["k"] == "Field":
-                if e.get("of", "") == FMT_TY:
-                    names = [e["name"]]
-                    on = True
-                elif on and len(names) < 2 and "impl_lexical::format::NarseseFormat" in e.get("of", ""):
-                    names.append(e["name"])
-        if len(names) == 2:
-            out.add(".".join(names))
+                of = str(e.get("of", ""))
+                if of.startswith(FMT_TY) and of != FMT_TY and "<" not in of[len(FMT_TY):]:
+                    out.add("%s.%s" % (of[len(FMT_TY):].lower(), e["name"]))
     for bl in body["blocks"]:
         for s in bl["stmts"]:
             if s["k"] != "Assign":
